@@ -313,6 +313,6 @@ MUTANTS = {
     'setter_stores_norm': {'module': 'field', 'contract': 'Field.norm.setter', 'config': {'ndim': 2, 'nvdim': 3, 'val': 'number'},
                            'old': '            self.array *= self._as_array(val, self.mesh, nvdim=1, dtype=None)',
                            'new': '            self.array *= self._as_array(val, self.mesh, nvdim=1, dtype=None)\n            self._norm_target = val'},
-    'orientation_threshold': {'module': 'field', 'contract': 'Field.orientation', 'config': {'ndim': 2, 'nvdim': 3},
+    'orientation_threshold': {'expect': 'zero where the field is within the threshold', 'module': 'field', 'contract': 'Field.orientation', 'config': {'ndim': 2, 'nvdim': 3},
                               'old': 'where=np.invert(np.isclose(self.norm.array, 0)),', 'new': 'where=self.norm.array != 0.0,'},
 }
